@@ -40,6 +40,7 @@ var binOps = []struct {
 	{"LtLtToken", "<<", 10, 10, 11}, {"GtGtToken", ">>", 10, 10, 11}, {"GtGtGtToken", ">>>", 10, 10, 11},
 	{"AddToken", "+", 11, 11, 12}, {"SubToken", "-", 11, 11, 12}, {"MulToken", "*", 12, 12, 13}, {"DivToken", "/", 12, 12, 13}, {"ModToken", "%", 12, 12, 13},
 	{"ExpToken", "**", 13, 15, 13},
+	{"InToken", "in", 9, 9, 10}, {"InstanceofToken", "instanceof", 9, 9, 10},
 }
 var preOps = []struct {
 	tok, s string
@@ -375,7 +376,7 @@ func runPrintCases(seed uint64, n int, outDir string, extra map[string]interface
 	fsrc, _ := os.Create(filepath.Join(outDir, "cases.src"))
 	defer fsrc.Close()
 	m := minify.New()
-	skipped, done, dropped := 0, 0, 0
+	skipped, done, dropped, byteCases := 0, 0, 0, 0
 	hist := map[string]int{}
 	for k := 0; k < n; k++ {
 		g := &pgen{r: r.Fork()}
@@ -401,6 +402,13 @@ func runPrintCases(seed uint64, n int, outDir string, extra map[string]interface
 		fmt.Fprintf(fin, "jsprint\t%s\n", strings.TrimSpace(sx.String()))
 		fmt.Fprintf(fout, "%s\n", strings.Join(toks[2:], " "))
 		fmt.Fprintf(fsrc, "%s\n", strings.ReplaceAll(src.String(), "\n", " "))
+		// the same case byte for byte: the writer's spaces (Js/PrintRender.v)
+		if strings.HasPrefix(out.String(), "x0=") {
+			fmt.Fprintf(fin, "jsprintb\t%s\n", strings.TrimSpace(sx.String()))
+			fmt.Fprintf(fout, "%x\n", strings.TrimPrefix(out.String(), "x0="))
+			fmt.Fprintf(fsrc, "%s\n", strings.ReplaceAll(src.String(), "\n", " "))
+			byteCases++
+		}
 		done++
 		hist[e.kind]++
 		if strings.Count(src.String(), "(") > strings.Count(out.String(), "(") {
@@ -408,6 +416,7 @@ func runPrintCases(seed uint64, n int, outDir string, extra map[string]interface
 		}
 	}
 	extra["jsprint_expressions"] = done
+	extra["jsprint_byte_exact_cases"] = byteCases
 	extra["jsprint_skipped"] = skipped
 	extra["jsprint_with_dropped_parentheses"] = dropped
 	extra["jsprint_root_kinds"] = hist
@@ -624,6 +633,11 @@ func runRewriteCases(seed uint64, n int, outDir string, extra map[string]interfa
 		fmt.Fprintf(fin, "%s\t%s\n", kind, strings.TrimSpace(sx.String()))
 		fmt.Fprintf(fout, "%s\n", strings.Join(toks, " "))
 		fmt.Fprintf(fsrc, "%s\n", strings.ReplaceAll(src.String(), "\n", " "))
+		if ob := out.String(); bare || strings.HasPrefix(ob, "x0=") {
+			fmt.Fprintf(fin, "%sb\t%s\n", kind, strings.TrimSpace(sx.String()))
+			fmt.Fprintf(fout, "%x\n", strings.TrimPrefix(ob, map[bool]string{true: "", false: "x0="}[bare]))
+			fmt.Fprintf(fsrc, "%s\n", strings.ReplaceAll(src.String(), "\n", " "))
+		}
 		done++
 		st := jsTokens(src.String())
 		if !bare {
